@@ -85,9 +85,12 @@ def invoke(world, rec):
                 return m.sample(random_state=seed, **kw)        # the default sample size
             return m.sample(a["n"], random_state=seed, **kw)
         return f
+    pos = bool(rec.get("posseed"))       # the seed handed over positionally, as the signatures allow
     if api == "nd.sample":
         def f():
             m, _ = get_model(world, rec["m"])
+            if pos:
+                return m.sample(a["n"], seed)
             return m.sample(a["n"], random_state=seed)
         return f
     if api == "anm.sample":
@@ -112,20 +115,25 @@ def invoke(world, rec):
         def f():
             size = a["size"]
             size = tuple(size) if isinstance(size, list) else size
+            if pos:
+                return S.generators.intervention_targets(a["p"], a["K"], size, a.get("replace", True), seed)
             return S.generators.intervention_targets(a["p"], a["K"], size, replace=a.get("replace", True),
                                                      random_state=seed)
         return f
     skw = {} if rec.get("seed") == "default" else {"random_state": seed}
+    sargs = ()
+    if pos and skw:
+        skw, sargs = {}, (seed,)
     if api == "utils.split_data":
         def f():
-            return S.utils.split_data(dec(a["data"]), list(a["ratios"]), **skw)
+            return S.utils.split_data(dec(a["data"]), list(a["ratios"]), *sargs, **skw)
         return f
     if api == "utils.add_edges":
         def f():
-            return S.utils.add_edges(dec(a["A"]), a["k"], **skw)
+            return S.utils.add_edges(dec(a["A"]), a["k"], *sargs, **skw)
         return f
     if api == "utils.remove_edges":
         def f():
-            return S.utils.remove_edges(dec(a["A"]), a["k"], **skw)
+            return S.utils.remove_edges(dec(a["A"]), a["k"], *sargs, **skw)
         return f
     raise ValueError("unknown api %r" % api)
